@@ -23,8 +23,8 @@ type Known struct {
 }
 
 func (k Known) Matches(class, reason string) bool {
-	if k.Class != "" && k.Class != class {
-		return false
+	if k.Class == "" || k.Class != class {
+		return false // entries without a class are witness-only: they never attribute campaign violations
 	}
 	if k.Match != "" && !strings.Contains(reason, k.Match) {
 		return false
